@@ -15,7 +15,8 @@ import (
 	"verif/harness/vlib/refcurve"
 )
 
-// Genuine deviations from the property found by this package. Each has
+// Genuine deviations from the property found by this package that are CATALOGUED as known in
+// /verif/known_findings.json (the repaired ones are plain regressions in TestFixedFindings). Each has
 //   - an id,
 //   - observe(): the minimal input run against the real code → (still present?, what was seen),
 //   - a place in the oracles (search for the id) where exactly the inputs of that finding are
@@ -26,11 +27,7 @@ import (
 
 const (
 	fP256x02      = "C13-p256-x0-compressed-02"
-	fP256x03      = "C13-p256-x0-compressed-03"
-	fBLSRange     = "C13-bls12381-point-coordinate-range"
-	fGTRange      = "C13-bls12381-gt-coordinate-range"
 	fBLSUncFlags  = "C13-bls12381-uncompressed-flags"
-	fG1AffineX    = "C13-bls12381-g1-fromaffinex-subgroup"
 	fX25519Sign   = "C13-curve25519-compressed-sign"
 	fX25519Ord2   = "C13-curve25519-order2-compressed"
 	fX25519Ord2Un = "C13-curve25519-order2-uncompressed-panic"
@@ -82,29 +79,6 @@ var findings = []finding{
 		return present, fmt.Sprintf("P-256 point (0, sqrt(b) even) = FromAffine(0, 66485c78…174f93f4): ToCompressed = %x, identity.ToCompressed = %x; "+
 			"two distinct elements share the encoding (Bytes() and CBOR use it); FromCompressed of it returns the identity", enc, id)
 	}},
-	{fP256x03, func() (bool, string) {
-		p := p256XZero(true)
-		enc := p.ToCompressed()
-		q, err := p256.NewCurve().FromCompressed(enc)
-		present := err != nil || !q.Equal(p)
-		return present, fmt.Sprintf("P-256 point (0, sqrt(b) odd): ToCompressed = %x; FromCompressed of it: err=%v, identity=%v, equal to the point=%v",
-			enc, err, err == nil && q.IsOpIdentity(), err == nil && q.Equal(p))
-	}},
-	{fBLSRange, func() (bool, string) {
-		m := refcurve.BLS12381G1()
-		mp := m.ScalarBaseMul(big.NewInt(2))
-		enc := m.EncodeZcash(mp, true)
-		b := toBE(new(big.Int).Add(mp.X, m.P), 48)
-		b[0] |= enc[0] & 0xe0
-		_, err := bls12381.NewG1().FromCompressed(b)
-		return err == nil, fmt.Sprintf("G1.FromCompressed(%x) = compressed [2]G with x replaced by x+p (fits in 381 bits): accepted=%v; the ZCash format and the property require rejection of coordinates >= p (G1/G2 compressed and uncompressed share bls12381Impl.Fp.SetBytes, which never fails)", b, err == nil)
-	}},
-	{fGTRange, func() (bool, string) {
-		b := bls12381.NewGt().One().Bytes()
-		copy(b[:48], toBE(new(big.Int).Add(big.NewInt(1), refcurve.BLS12381G1().P), 48))
-		e, err := bls12381.NewGt().FromBytes(b)
-		return err == nil, fmt.Sprintf("Gt.FromBytes(One with first coefficient 1+p): accepted=%v equal-to-One=%v (coefficients >= p are reduced, not rejected)", err == nil, err == nil && e.Equal(bls12381.NewGt().One()))
-	}},
 	{fBLSUncFlags, func() (bool, string) {
 		m := refcurve.BLS12381G1()
 		enc := m.EncodeZcash(m.G, false)
@@ -118,12 +92,6 @@ var findings = []finding{
 			present = present || err == nil
 		}
 		return present, fmt.Sprintf("G1.FromUncompressed(uncompressed generator with a forbidden flag bit set in byte 0): %v — the compression and sort flags are ignored and the infinity flag wins over a non-zero payload (same in G2)", seen)
-	}},
-	{fG1AffineX, func() (bool, string) {
-		x, _ := bls12381.NewG1BaseField().FromBytes(make([]byte, 48))
-		p, err := bls12381.NewG1().FromAffineX(x, false)
-		present := err == nil && !p.IsTorsionFree()
-		return present, fmt.Sprintf("G1.FromAffineX(0, false): err=%v; returns (0, 2), a point of order 3 outside G1, as a *PointG1 (FromAffine, FromCompressed, FromUncompressed run the subgroup check, FromAffineX does not)", err)
 	}},
 	{fX25519Sign, func() (bool, string) {
 		g := curve25519.NewCurve().PrimeSubGroupGenerator()
@@ -204,5 +172,41 @@ func TestKnownFindings(t *testing.T) {
 		vlib.Known(f.id, presentMap[f.id], whatMap[f.id])
 		vlib.Case(test, f.id, true, fmt.Sprintf("present=%v", presentMap[f.id]))
 		t.Logf("%s present=%v: %s", f.id, presentMap[f.id], whatMap[f.id])
+	}
+}
+
+// TestFixedFindings: the two deviations this package found that were repaired in /repo. They are
+// asserted by the generated tests like everything else; this is the plain regression with the
+// minimal inputs.
+//   - C13-p256-x0-compressed-03 (e667d71): 03‖0…0 on P-256 is the point (0, odd √b), not the identity.
+//   - C13-bls12381-g1-fromaffinex-subgroup (3f8e631): G1.FromAffineX refuses points outside G1.
+func TestFixedFindings(t *testing.T) {
+	const test = "FixedFindings"
+	if vlib.Mine(0) {
+		p := p256XZero(true)
+		enc := p.ToCompressed()
+		want := append([]byte{3}, make([]byte, 32)...)
+		if !bytes.Equal(enc, want) {
+			t.Fatalf("P-256 (0, odd sqrt b): ToCompressed = %x, expected %x", enc, want)
+		}
+		q, err := p256.NewCurve().FromCompressed(enc)
+		if err != nil || !q.Equal(p) || q.IsOpIdentity() {
+			t.Fatalf("P-256 FromCompressed(%x): err=%v, identity=%v — expected the point (0, odd sqrt b) [regression of C13-p256-x0-compressed-03]", enc, err, err == nil && q.IsOpIdentity())
+		}
+		pb := append([]byte{3}, toBE(refcurve.P256().P, 32)...) // x = p, reads as 0
+		if q, err := p256.NewCurve().FromCompressed(pb); err == nil && !q.Equal(p) {
+			t.Fatalf("P-256 FromCompressed(03‖p) decoded to something else than (0, odd sqrt b)")
+		}
+		vlib.Case(test, "p256-03-x0", true, "p256-03-x0")
+	}
+	if vlib.Mine(1) {
+		x, _ := bls12381.NewG1BaseField().FromBytes(make([]byte, 48))
+		for _, odd := range []bool{false, true} {
+			p, err := bls12381.NewG1().FromAffineX(x, odd)
+			if err == nil {
+				t.Fatalf("G1.FromAffineX(0, %v) returned a point (torsion free: %v) — (0, ±2) has order 3 [regression of C13-bls12381-g1-fromaffinex-subgroup]", odd, p.IsTorsionFree())
+			}
+		}
+		vlib.Case(test, "g1-fromaffinex-x0", true, "g1-fromaffinex-x0")
 	}
 }
